@@ -27,7 +27,7 @@ def restr_tokens_of(problem, seq0):
 def run_case(desc, op, fault_at=None, pre_ops=()):
     """-> dict(line, answer, info, problem) or dict(skip=reason)"""
     try:
-        p = build_problem(desc)
+        p = build_problem(desc, circular=op.startswith("circ"))
     except Exception as e:  # constructor errors (unsolvable space, bad parameters) are outside the solver properties
         return dict(skip="%s" % type(e).__name__)
     seq0 = desc["sequence"].upper()
